@@ -11,4 +11,5 @@ pub mod unit;
 
 #[cfg(feature = "verif-hooks")]
 pub mod verif;
+#[cfg(feature = "verif-hooks")]
 pub mod verif_http;
